@@ -12,9 +12,10 @@ EXTENDS Props, IStream, TLC
 
 CONSTANTS MaxK, MaxItems
 
-VARIABLES strategy, k, preSig, is, chan, sent, items, afterSig, lastOut, ended
+VARIABLES strategy, k, preSig, is, chan, sent, items, afterSig, lastOut, ended,
+          acts, pits      \* how often fn_interrupt_activate / fn_interrupt_poll_item have been called
 
-vars == <<strategy, k, preSig, is, chan, sent, items, afterSig, lastOut, ended>>
+vars == <<strategy, k, preSig, is, chan, sent, items, afterSig, lastOut, ended, acts, pits>>
 
 Init ==
   /\ strategy \in {"non", "ignore", "finish", "poll_n"}
@@ -22,7 +23,7 @@ Init ==
   /\ preSig \in BOOLEAN
   /\ is = IS0
   /\ chan = (preSig /\ HasChannel(strategy)) /\ sent = FALSE
-  /\ items = 0 /\ afterSig = 0 /\ lastOut = "none" /\ ended = FALSE
+  /\ items = 0 /\ afterSig = 0 /\ lastOut = "none" /\ ended = FALSE /\ acts = 0 /\ pits = 0
 
 Poll(inner) ==
   /\ ~ended /\ items < MaxItems
@@ -33,12 +34,14 @@ Poll(inner) ==
      /\ ended' = (r.out = "end")
      /\ items' = IF r.out \in {"item", "int_item"} THEN items + 1 ELSE items
      /\ afterSig' = IF r.out \in {"item", "int_item"} /\ sent THEN afterSig + 1 ELSE afterSig
+     /\ acts' = IF r.act THEN acts + 1 ELSE acts
+     /\ pits' = IF r.pit THEN pits + 1 ELSE pits
   /\ UNCHANGED <<strategy, k, preSig, sent>>
 
 Signal ==
   /\ HasChannel(strategy) /\ ~sent /\ ~preSig
   /\ sent' = TRUE /\ chan' = TRUE
-  /\ UNCHANGED <<strategy, k, preSig, is, items, afterSig, lastOut, ended>>
+  /\ UNCHANGED <<strategy, k, preSig, is, items, afterSig, lastOut, ended, acts, pits>>
 
 Next == Signal \/ \E inner \in {"pending", "item", "end"} : Poll(inner)
 Spec == Init /\ [][Next]_vars
@@ -52,6 +55,13 @@ Inv_C08 == C08_AfterSignal(Ob) /\ C08_PreSignal(Ob)
 Inv_EndsAfterInterrupt == is.ntf => lastOut \in {"int_item", "int_none", "end"}
 (* non-interrupting strategies never produce an Interrupted item *)
 Inv_Transparent == strategy \in {"non", "ignore"} => lastOut \notin {"int_item", "int_none"}
+(* the two callbacks: activate at most once and only for an interrupting strategy; poll_item exactly once, *)
+(* in the poll that returns the Interrupted item, and never before activate                                *)
+Inv_Callbacks ==
+  /\ acts <= 1 /\ pits <= 1 /\ pits <= acts
+  /\ (acts = 1 => strategy \in {"finish", "poll_n"})
+  /\ (pits = 1 <=> is.ntf)
+
 (* an Interrupted(Some) item is only possible for FinishCurrent / PollNextN(0) *)
 Inv_IntItemOnlyFinish == lastOut = "int_item" => strategy = "finish" \/ (strategy = "poll_n" /\ k = 0)
 =============================================================================
